@@ -3,6 +3,14 @@
  * and for types the kind of the resolved body and whether TYPEget_head is set), in DICTdo order.
  *   usage: h_exprdump file.exp        exit status 0 = accepted, 1 = rejected
  * output lines:  schema <name> <line> | ent <name> <line> | type <name> <kind#> <head 0/1> <line> | other <name> <class char> <line>
+ *   usage: h_exprdump -p file.exp     additionally the structure exp2cxx's pass logic (multpass.c) looks at, read off the
+ *                                     resolved model (q = <schema>.<name> of the object a reference resolved to):
+ *     P type <name> <line> <isEnum> <isSelect> <q of the end of the TYPEget_head chain | ->
+ *       P item T <q|-> <isEnum> <isSelect>   a non-entity select item, seen through ONE aggregate level (TYPEinherits_from aggregate_ -> base)
+ *       P item E <q>                          an entity item, followed by one line per attribute (ENTITYget_all_attributes):
+ *         P eattr <q|-> <isEnum> <isSelect>
+ *     P entity <name> <line>
+ *       P super <q> | P sub <q> | P attr <q|-> <isEnum> <isSelect>      (direct supertypes / subtypes, own explicit+derived+inverse attributes)
  */
 #include <stdio.h>
 #include <stdlib.h>
@@ -14,11 +22,94 @@
 
 int multiple_inheritance = 0;
 
+static void q( Scope x ) {
+    if( x && x->symbol.name && x->superscope && x->superscope->symbol.name ) {
+        printf( " %s.%s", x->superscope->symbol.name, x->symbol.name );
+    } else {
+        printf( " -" );
+    }
+}
+
+/* a type as multpass.c's checkItem() looks at it: through one aggregate level */
+static void looked_at( const char * tag, Type t ) {
+    Type i = t;
+    if( t && TYPEinherits_from( t, aggregate_ ) ) {
+        i = TYPEget_base_type( t );
+    }
+    printf( "P %s", tag );
+    if( i && i->u.type && i->u.type->body ) {
+        q( ( Scope )i );
+        printf( " %d %d\n", TYPEis_enumeration( i ) ? 1 : 0, TYPEis_select( i ) ? 1 : 0 );
+    } else {
+        printf( " - 0 0\n" );
+    }
+}
+
+static void pass_structure( Schema schema ) {
+    DictionaryEntry de;
+    void * x;
+    DICTdo_init( schema->symbol_table, &de );
+    while( 0 != ( x = DICTdo( &de ) ) ) {
+        if( DICT_type == OBJ_TYPE ) {
+            Type t = ( Type )x, a = t;
+            while( TYPEget_head( a ) ) {
+                a = TYPEget_head( a );
+            }
+            printf( "P type %s %d %d %d", t->symbol.name, t->symbol.line, TYPEis_enumeration( t ) ? 1 : 0, TYPEis_select( t ) ? 1 : 0 );
+            if( a != t ) {
+                q( ( Scope )a );
+            } else {
+                printf( " -" );
+            }
+            printf( "\n" );
+            if( TYPEis_select( t ) ) {
+                LISTdo( SEL_TYPEget_items( t ), ii, Type ) {
+                    if( !TYPEis_entity( ii ) ) {
+                        looked_at( "item T", ii );
+                    } else {
+                        Entity ent = ENT_TYPEget_entity( ii );
+                        Linked_List attribs = ENTITYget_all_attributes( ent );
+                        printf( "P item E" );
+                        q( ( Scope )ent );
+                        printf( "\n" );
+                        LISTdo_n( attribs, attr, Variable, z ) {
+                            looked_at( "eattr", attr->type );
+                        } LISTod
+                        LISTfree( attribs );
+                    }
+                } LISTod
+            }
+        } else if( DICT_type == OBJ_ENTITY ) {
+            Entity e = ( Entity )x;
+            printf( "P entity %s %d\n", e->symbol.name, e->symbol.line );
+            LISTdo( ENTITYget_supertypes( e ), super, Entity ) {
+                printf( "P super" );
+                q( ( Scope )super );
+                printf( "\n" );
+            } LISTod
+            LISTdo( ENTITYget_subtypes( e ), sub, Entity ) {
+                printf( "P sub" );
+                q( ( Scope )sub );
+                printf( "\n" );
+            } LISTod
+            LISTdo( ENTITYget_attributes( e ), attr, Variable ) {
+                looked_at( "attr", attr->type );
+            } LISTod
+        }
+    }
+}
+
 int main( int argc, char ** argv ) {
     Express model;
     Schema schema;
     DictionaryEntry de, de2;
     void * x;
+    int pass = 0;
+    if( argc == 3 && !strcmp( argv[1], "-p" ) ) {
+        pass = 1;
+        argv++;
+        argc--;
+    }
     if( argc != 2 ) {
         return 2;
     }
@@ -52,6 +143,9 @@ int main( int argc, char ** argv ) {
                     printf( "other %s %c %d\n", de2.e->key, DICT_type, de2.e->symbol ? de2.e->symbol->line : 0 );
                     break;
             }
+        }
+        if( pass ) {
+            pass_structure( schema );
         }
     }
     return 0;
